@@ -85,6 +85,16 @@ void chk_run_case(uint64_t seed, long c, bool is_sweep)
         if (chance(20)) EP.max_cmds = 64;
         eng_gen_table();
         paint();
+        {       /* the three lookup helpers of the public API read descriptor strings too: run them under the sanitizers (names present, absent, empty, longer than any) */
+                const char *probe[4] = { W.cmd[rn(W.ncmds)]->name, "", "+NO_SUCH_NAME_THAT_IS_LONGER_THAN_ANY_REGISTERED_ONE", "N0" };
+                for (int k = 0; k < 4; k++) {
+                        const struct cat_command *c1 = cat_search_command_by_name(W.at, probe[k]);
+                        if (c1 && strcmp(c1->name, probe[k]) != 0) viol("C03", "lookup-returned-wrong-command", "cat_search_command_by_name(\"%s\") returned \"%s\"", probe[k], c1->name);
+                        (void)cat_search_command_group_by_name(W.at, probe[k]);
+                        (void)cat_search_variable_by_name(W.at, W.cmd[rn(W.ncmds)], probe[k]);
+                        CNT("lookup_api_calls");
+                }
+        }
         eng_gen_input(1 + rn(8));
         eng_random_schedules();
         eng_run_history();
